@@ -108,6 +108,9 @@ def materialise(entries):
         # function of the package): they must add neither a module nor an import; every file imports
         # the same two names, so "the second import of a phantom" occurs as soon as there are two files
         facts.append(("import", "top.zz_missing.deep"))
+        # the root package itself: for a module_path below the root this is an import of something outside
+        # module_path (an ancestor package), which the default configuration does not show
+        facts.append(("import", "top"))
         facts.append(("rel", 1, "", ("zz_name",)))
         files[rel] = facts
     return files, dirs
@@ -155,6 +158,9 @@ def check_scan(base_rel, base, files, dirs, mp_rel, entry, res, spelling="qualif
         return ("modules", sorted(m["modules"]), sorted(mods)), out[1]
     if hier != names_hierarchy(mods):
         return ("hierarchy", sorted(map(list, names_hierarchy(mods))), sorted(map(list, hier))), out[1]
+    outside = sorted((u, v) for (u, v) in edges if v in ancestors(mp_rel.replace("/", ".")))
+    if outside:
+        return ("import-of-a-package-outside-module_path-shown", [], [list(x) for x in outside]), out[1]
     e = drop_ancestor_edges(edges)
     if not (drop_ancestor_edges(m["must"]) <= e <= drop_ancestor_edges(m["may"])):
         return ("imports", {"must": sorted(map(list, drop_ancestor_edges(m["must"]))), "may": sorted(map(list, drop_ancestor_edges(m["may"])))},
